@@ -16,8 +16,11 @@ EXTENDS RestorePlan, Json
 
 Log == ndJsonDeserialize("restoreplan_obs.ndjson")
 
-\* l steps through the log; mm memoises, for line l, the decoded inputs, the REAL results, the reach set of every
-\* request (declarative) and the transcription's results (binding) - all functions of Log[l]
+CONSTANT Groups       \* fan-out: root state -> Groups group states -> the log lines of each group, so that the
+                      \* workers of ONE TLC process judge the lines in parallel (a worker expands one group)
+
+\* l = 0: root; l = -g: group g; l = k > 0: log line k.  mm memoises, for line l, the decoded inputs, the REAL results,
+\* the reach set of every request (declarative) and the transcription's results (binding) - all functions of Log[l]
 VARIABLES l, mm
 ToFile(a) == File(a[1], a[2], a[3], a[4])
 \* (bound variables of \E are evaluated once; LET definitions would be re-evaluated at every use)
@@ -28,13 +31,15 @@ Memo(k, v) ==
                       [err |-> c.res[j].err, plan |-> [i \in DOMAIN c.res[j].plan |-> ToFile(c.res[j].plan[i])]]],
          reach |-> [j \in DOMAIN c.reqs |-> ReachSet(fs, c.reqs[j][1], c.reqs[j][2])],
          model |-> [j \in DOMAIN c.reqs |-> PlannerS(seqs, c.reqs[j][1], c.reqs[j][2])]]
-Init == l = 1 /\ Memo(1, mm)
-Next == l < Len(Log) /\ l' = l + 1 /\ Memo(l + 1, mm')
+Init == l = 0 /\ mm = <<>>
+Next == \/ l = 0 /\ \E g \in 1..Groups : l' = -g /\ mm' = <<>>
+        \/ l < 0 /\ \E k \in {k \in 1..Len(Log) : (k % Groups) + 1 = -l} : l' = k /\ Memo(k, mm')
 Spec == Init /\ [][Next]_<<l, mm>>
 
+IsLine == l > 0
 cur == Log[l]
 Files == mm.files
-J == DOMAIN cur.reqs
+J == IF IsLine THEN DOMAIN cur.reqs ELSE {}      \* root / group states: nothing to judge
 Tx(j) == cur.reqs[j][1]
 Ts(j) == cur.reqs[j][2]
 Real(j) == mm.real[j]          \* the REAL result of request j
